@@ -238,6 +238,10 @@ package main
 //@   ensures [C10] online_not_raised: forall u types.Uid :: (u in t.perUser) && old(u in t.perUser) ==> t.perUser[u].online == old(t.perUser[u].online) || t.perUser[u].online == 0
 //@   ensures [C06] subscriber_stays: !unsub && old((uid in t.perUser) && !t.perUser[uid].isChan) ==> (uid in t.perUser)
 //@   ensures [C10] evicted_counts_no_sessions: (uid in t.perUser) ==> t.perUser[uid].online == 0
+// (C15: "disconnected when a party's session leaves" - being evicted is leaving. Known finding: evictUser does not look
+// at the call in progress. The solver does not decide this clause - quantified context, it times out - and the replay
+// harness shows the failure on the real code.)
+//@   ensures [C15] evicted_party_ends_call: forall k string :: old(t.currentCall != nil && (k in t.currentCall.parties) && t.currentCall.parties[k].uid == uid) ==> t.currentCall == nil
 //@   ensures [C08] marks_kept: forall u types.Uid :: (u in t.perUser) && old(u in t.perUser) ==> t.perUser[u].readID == old(t.perUser[u].readID) && t.perUser[u].recvID == old(t.perUser[u].recvID) && t.perUser[u].delID == old(t.perUser[u].delID) && (t.perUser[u].deleted == old(t.perUser[u].deleted) || (unsub && u == uid))
 //@   modifies inferred
 //@   loop 1
